@@ -7,6 +7,7 @@
      ef mul <m1> <e1> <m2> <e2>            ExtendedFloat::mul        -> <mant> <exp>
      ef norm <m> <e>                       ExtendedFloat::normalize  -> <mant> <exp> <shift>
      ef round <d|s> <m> <e>                into_float, into_downward_float -> <bits> <bits>
+     ef rne <d|s> <m> <e>                  into_float next to Flocq's round-to-nearest-even of m * 2^e (binary_normalize): <bits> <bits>
      or <d|s> <m> <e>                      the ORACLE (Base/FloatB.rne_decimal, Model/Lex.rne_decimal32): bits of the correctly rounded m*10^e
      lo c <d|s> <mant> <exp>               algorithm model and oracle side by side: <algorithm bits> <oracle bits>
      lo t <d|s> <inthex> <frachex> <exp>   the same for parse_truncated_float
@@ -81,6 +82,14 @@ Definition dispatch_lex (fields : list bytes) : bytes :=
     let k := kind_of kf in
     let fp := mkEF (N_of_dec m) (Z_of_dec e) in
     show_bits k (ef_into_float k fp) ++ sp :: show_bits k (ef_into_downward_float k fp)
+  | [[101;102]; [114;110;101]; kf; m; e] =>                            (* ef rne *)
+    let k := kind_of kf in
+    let fp := mkEF (N_of_dec m) (Z_of_dec e) in
+    show_bits k (ef_into_float k fp) ++ sp ::
+    show_bits k (match k with
+                 | F64 => bits_of_b64 (binary_normalize 53 1024 _ _ mode_NE (Z.of_N (mant fp)) (exp fp) false)
+                 | F32 => bits_of_b32 (binary_normalize 24 128 _ _ mode_NE (Z.of_N (mant fp)) (exp fp) false)
+                 end)
   | [[111;114]; kf; m; e] =>                                           (* or *)
     let k := kind_of kf in show_bits k (oracle_bits k (Z.of_N (N_of_dec m)) (Z_of_dec e))
   | [[108;111]; [99]; kf; m; e] =>                                     (* lo c *)
